@@ -83,8 +83,9 @@ def main():
     if a.save:
         dest = os.path.join(VERIF, 'seeded', a.name)
         os.makedirs(dest, exist_ok=True)
-        shutil.copy(a.patch, os.path.join(dest, 'patch.diff'))
-        shutil.copy(a.demo, os.path.join(dest, 'demo.py'))
+        for src, name in ((a.patch, 'patch.diff'), (a.demo, 'demo.py')):
+            if os.path.abspath(src) != os.path.join(dest, name):
+                shutil.copy(src, os.path.join(dest, name))
         old = {}
         mp = os.path.join(dest, 'meta.json')
         if os.path.exists(mp):
